@@ -1116,6 +1116,14 @@ func (c *Ctx) c21CheckCmdErr(fn *ssa.Function, ci ssa.CallInstruction, method st
 		if errIdx >= 0 && c21IsErrorType(fn.Signature.Results().At(errIdx).Type()) {
 			switch nn, rv := p.ReturnsNonNil(errIdx, errV); nn {
 			case "nonnil":
+				// Wait errors that are returned end up in External, which copies
+				// ProcessState.ExitCode() — -1 for a signalled child, which `try`
+				// (exitNum > 0) reads as success. So a returned Wait error must be
+				// known not to be a signal death on that path.
+				if method == "Wait" && c21FuncName(fn) == "lang.execFork" && !strings.Contains(facts, `"signal:")=F`) {
+					c.Viol("R21a", key, pos, "%s: on the path [%s] a failed (*exec.Cmd).Wait is returned as an error without the path excluding death by signal (`signal:` prefix): External then stores ProcessState.ExitCode() = -1 as the exit number, which `try` and `||` inside try treat as success", c21FuncName(fn), facts)
+					continue
+				}
 				c.OK("R21a", key, pos, "error path returns a non-nil error (%s)", c21Desc(rv))
 				continue
 			case "unknown":
